@@ -257,7 +257,12 @@ class AbstractPathModelDAG(ABC):
             self.solve_statistics["safe_sequences_time"] = time.perf_counter() - start_time
 
         if self.optimize_with_subpath_constraints_as_safe_sequences and len(self.subpath_constraints) > 0 and not self.is_solved():
-            if self.subpath_constraints_coverage == 1 and self.subpath_constraints_coverage_length in [1, None]:
+            # With a length coverage of 1, an edge of length 0 contributes nothing to the covered length, so a path can
+            # satisfy the constraint without containing that edge: then the constraint is not a sequence that some path must contain
+            constraints_fully_contained = self.subpath_constraints_coverage_length is None or all(
+                self.G[u][v].get(self.length_attr, 1) > 0 for subpath in self.subpath_constraints for (u, v) in subpath
+            )
+            if self.subpath_constraints_coverage == 1 and self.subpath_constraints_coverage_length in [1, None] and constraints_fully_contained:
                 start_time = time.perf_counter()
                 self.safe_lists += safetypathcovers.safe_sequences(
                     G=self.G,
